@@ -1891,7 +1891,19 @@ int32_t tls13EncodeResponseServer(ssl_t *ssl, psBuf_t *out, uint32 *requiredLen)
         rc = tls13WriteNewSessionTicket(ssl, out);
         if (rc < 0)
         {
-            return rc;
+#  if defined(USE_SERVER_SIDE_SSL) && defined(USE_STATELESS_SESSION_TICKETS)
+            if (!matrixSslHaveSessionTicketKeys(ssl->keys))
+            {
+                /* The last ticket key was deleted (another thread, legal API
+                   use) after the decision to issue a ticket: the handshake
+                   is complete and simply ends without a ticket. */
+                ssl->err = SSL_ALERT_NONE;
+            }
+            else
+#  endif
+            {
+                return rc;
+            }
         }
         tls13ClearHsState(ssl);
         ssl->hsState = SSL_HS_DONE;
